@@ -2524,11 +2524,8 @@ func (data *Data) CreateShardGroup(database, policy string, timestamp time.Time,
 		return nil
 	}
 
-	var msti *MeasurementInfo
-	for _, mst := range rpi.Measurements {
-		msti = mst
-		break
-	}
+	// the same measurement on every meta node: the first in name order, not in map order
+	msti := rpi.firstMeasurement(nil)
 
 	if msti == nil {
 		return errno.NewError(errno.NoMstInDb, database, policy)
@@ -2844,7 +2841,14 @@ func (data *Data) DropSubscription(database, rp, name string) error {
 		if !ok {
 			return ErrDatabaseNotExists
 		}
-		for _, rpi := range db.RetentionPolicies {
+		// in name order: with the name in several policies every meta node must drop the same one
+		rpNames := make([]string, 0, len(db.RetentionPolicies))
+		for rpName := range db.RetentionPolicies {
+			rpNames = append(rpNames, rpName)
+		}
+		sort.Strings(rpNames)
+		for _, rpName := range rpNames {
+			rpi := db.RetentionPolicies[rpName]
 			for i := range rpi.Subscriptions {
 				if rpi.Subscriptions[i].Name == name {
 					rpi.Subscriptions = append(rpi.Subscriptions[:i], rpi.Subscriptions[i+1:]...)
